@@ -284,6 +284,12 @@ def _closest_points_on_segments_2d(a0x: float, a0y: float, a1x: float, a1y: floa
     if den > 0.0:
         s = (B * E - C * D) / den
         t = (A * E - B * D) / den
+    elif C > 0.0:
+        # parallel segments or degenerate first segment: project a0 (s = 0) onto the second segment
+        t = E / C
+    elif A > 0.0:
+        # second segment is a point: project it onto the first segment
+        s = -D / A
 
     # clamp and recompute as needed
     if s < 0.0:
